@@ -15,6 +15,10 @@ public:
 	constexpr manual_box()
 	: _initialized{false} { }
 
+	// The box holds a T in raw storage; a member-wise copy would duplicate a live object byte by byte.
+	manual_box(const manual_box &) = delete;
+	manual_box &operator= (const manual_box &) = delete;
+
 	template<typename... Args>
 	void initialize(Args &&... args) {
 		FRG_ASSERT(!_initialized);
